@@ -129,6 +129,27 @@ class OsShim:
         self.killpg(pid, sig)
 
 
+class TimeShim:
+    """Stands in for the `time` module inside gwf.backends.local while a pool runs on the virtual loop: the clock is the loop's."""
+
+    def __init__(self, loop):
+        self._loop = loop
+
+    def __getattr__(self, k):
+        import time
+
+        return getattr(time, k)
+
+    def monotonic(self):
+        return self._loop.time()
+
+    def time(self):
+        return 1_500_000_000.0 + self._loop.time()
+
+    def perf_counter(self):
+        return self._loop.time()
+
+
 class FakeProc:
     """Stands in for asyncio.subprocess.Process. Life cycle is driven by the explorer via `deliver_exit`."""
 
@@ -142,6 +163,7 @@ class FakeProc:
         self.killed = False
         self.terminated = False
         self.kill_calls = 0
+        self.stubborn = False  # the script left a command in its process group that ignores SIGTERM: the group lives until it is sent SIGKILL
         self._waiters = []
         self.stdout_data = b""
         self.stderr_data = b""
@@ -165,15 +187,19 @@ class FakeProc:
         await self._wait_exit()
         return self.returncode
 
+    @property
+    def group_alive(self):
+        return self.returncode is None or (self.stubborn and not self.killed)
+
     def kill(self):
         self.kill_calls += 1
-        if self.returncode is not None:
-            raise ProcessLookupError()  # as asyncio.base_subprocess does once the exit was processed
+        if not self.group_alive:
+            raise ProcessLookupError()  # as asyncio.base_subprocess does once the exit was processed / killpg on an empty group
         self.killed = True
         self.world.event("kill", self)
 
     def terminate(self):
-        if self.returncode is not None:
+        if not self.group_alive:
             raise ProcessLookupError()
         self.terminated = True
         self.world.event("terminate", self)
@@ -195,7 +221,8 @@ class FakeProc:
 class PoolWorld:
     """Owns the loop, the fake process table and the patching of asyncio.create_subprocess_shell."""
 
-    def __init__(self, start_failures=(), payloads=None):
+    def __init__(self, start_failures=(), payloads=None, stubborn=()):
+        self.stubborn = set(stubborn)
         self.loop = VLoop()
         self.procs = []
         self.events = []
@@ -217,6 +244,7 @@ class PoolWorld:
         p = FakeProc(self, FAKE_PID_BASE + len(self.procs), script, cwd, tag)
         out, err = self.payloads.get(tag, (b"", b""))
         p.stdout_data, p.stderr_data = out, err
+        p.stubborn = tag in self.stubborn
         self.procs.append(p)
         self.event("spawn", p)
         return p
@@ -228,6 +256,8 @@ class PoolWorld:
         asyncio.create_subprocess_shell = self.create_subprocess_shell
         self._saved_os = gl.__dict__.get("os")
         gl.os = OsShim(self)
+        self._saved_time = gl.__dict__.get("time")
+        gl.time = TimeShim(self.loop)
         return self
 
     def __exit__(self, *a):
@@ -238,6 +268,10 @@ class PoolWorld:
             gl.os = self._saved_os
         else:
             gl.__dict__.pop("os", None)
+        if self._saved_time is not None:
+            gl.time = self._saved_time
+        else:
+            gl.__dict__.pop("time", None)
         # break reference cycles deterministically; pending tasks are dropped with the loop
         try:
             for t in asyncio.all_tasks(self.loop):
